@@ -19,6 +19,18 @@ func checkC12(r *Run) {
 	}
 	ff := r.P.Facts(fn)
 	const UXB = "transaction.NewUxBalances(coin.AddressUxOuts.Flatten($1), $2)#0"
+	// the balance records the creation works on are the offered outputs with the hours they have accrued at the head
+	// time: an output whose hours cannot be computed is an error, never a substituted value
+	r.RequireOnSuccess("C12-R7", "transaction.NewUxBalance", req("accrued hours computed", "ok(coin.UxOut.CoinHours($1, $0))"))
+	if nb := r.fn("C12-R7", "transaction.NewUxBalance"); nb != nil {
+		fs := r.fieldStores(nb)
+		for f, want := range map[string]string{"Hash": "coin.UxOut.Hash($1)", "Coins": "$1.Body.Coins", "Hours": "coin.UxOut.CoinHours($1, $0)#0", "InitialHours": "$1.Body.Hours", "Address": "$1.Body.Address"} {
+			r.Check("C12-R7", "transaction.NewUxBalance: "+f+" = "+want, r.P.Pos(nb.Pos()), fs[f] == want, "stores "+fs[f])
+		}
+	}
+	r.RequireOnSuccess("C12-R7", "transaction.NewUxBalances",
+		req("every offered output converted", "forall(i < len($0)): ok(transaction.NewUxBalance($1, $0[i]))"))
+	r.RequireStore("C12-R7", "transaction.NewUxBalances", "slot i holds the balance of output i", "make([]transaction.UxBalance, len($0))[i] := transaction.NewUxBalance($1, $0[i])#0")
 	// R1
 	// the share-factor retry re-enters create: its success is the callee's success (induction on callCount <= 1)
 	r.RequireOnSuccessExcept("C12-R1", cr, []string{"ok(transaction.create($0, $1, $2, 1)*"},
